@@ -403,11 +403,13 @@ let run_ksim (dump : Stdlib.String.t list) (hist : Stdlib.String.t) (out : Buffe
   let zidle () = (match zc with None -> true | Some _ -> z_is_idle !z) in
   let tick = ref 0 in
   let pending = ref [] in
+  let loop_mode = ref None in
   (try
     List.iter (fun tok ->
       if tok <> "" then begin
         let kind = tok.[0] and rest = String.sub tok 1 (String.length tok - 1) in
         match kind with
+        | 'B' -> loop_mode := Some (rest = "1")
         | 'd' | 'u' | 'r' | 'T' ->
           let code = n_of_int (int_of_string rest) in
           if os_from_u16 code = None then () else
@@ -431,6 +433,12 @@ let run_ksim (dump : Stdlib.String.t list) (hist : Stdlib.String.t) (out : Buffe
           Buffer.add_string out (Printf.sprintf "Q@%d idle=%d block=%d\n" !tick (if idle then 1 else 0) (if block then 1 else 0))
         | 't' ->
           for _ = 1 to int_of_string rest do
+            let blocked = (match !loop_mode with
+              | None -> false
+              | Some honour ->
+                let (k', cb) = k_can_block cfg !k (n_of_int 1) in
+                k := k'; (cb && zidle ()) && honour) in
+            if blocked then incr tick else
             let (k', evs) = unwrap (k_tick cfg !k) in
             k := k'; incr tick;
             pending := !pending @ List.map fmt_ev (zfilter evs);
